@@ -30,6 +30,10 @@ CLAIMED["C07"] = ("Deductive proof of contracts on the CIDInit procedure set: ea
   "Partial: endcodespacerange entries, usecmap, the range-mapping rejection clauses (low > high) and ReadCMap's choice of the returned dictionary are not yet under functional contract; sort.Slice/bytes.Compare are trusted (see evidence). Trusted: govc, go/ssa, solvers.",
   "contract-based deductive verification: weakest-precondition style VCs over go/ssa of /repo, discharged by z3 4.8.12 / z3 5.1.0 / cvc5 1.0",
   "DESIGN.md §3 C07")
+CLAIMED["C20"] = ("Deductive proof, for all 2^32 integers, that appendInt writes the Type 1 number format of the proper range (one byte for -107..107, two bytes for +-108..1131, five bytes otherwise) and that the bytes decode to the same integer under the Type 1 book's number formats (ghost decoder specT1Int); proof that the real charstring decoder's number branches implement the same formats (per-iteration step clause of the decoding loop: pushes float64(specT1Int(code)) and advances by its length, rest of the stack unchanged).",
+  "Partial: the fraction clauses (p/q within 1/214, no drift along a path) are not yet under contract (see evidence.not_covered); float64 arithmetic on the small integers involved is treated as exact real arithmetic. Trusted: govc, go/ssa, solvers.",
+  "contract-based deductive verification: weakest-precondition style VCs over go/ssa of /repo, discharged by z3 4.8.12 / z3 5.1.0 / cvc5 1.0",
+  "DESIGN.md §3 C20")
 NA = {}
 ALL = ["C%02d" % i for i in range(1, 21)]
 for p in ALL:
